@@ -1,4 +1,5 @@
 import Driver.Circ
+import Driver.BuilderOps
 /-! gvdriver — the model side of the correspondence checks: one JSON case per line on stdin,
 one JSON result per line on stdout. Imports models only (no proofs, no Mathlib). -/
 open Lean GVD
@@ -7,6 +8,7 @@ def handle (case : Json) : Json :=
   match getStr (field case "op") with
   | "ssa_validate_eval" => ssaValidateEval case
   | "reg_validate_eval" => regValidateEval case
+  | "builder_run" => builderRun case
   | op => Json.mkObj [("error", s!"unknown op {op}")]
 
 partial def loop (h : IO.FS.Stream) (out : IO.FS.Stream) : IO Unit := do
